@@ -277,3 +277,5 @@ def lti_def(arr, n):
                                      z3.And(L >= k, L < n, s_kind(z3.Select(arr, L)) == TARGET)), patterns=[z3.Select(arr, k)])
 
 axiom("A-PI", z3.And(PI > 3, PI < 4), "pi is a real constant between 3 and 4 (only its positivity/size is ever used)")
+
+_pp = z3.Const("p!defs", Ref)
